@@ -1,3 +1,4 @@
+-- DRIVER: sph Pms.Sph.handleSph
 import Pms.Model.Sph
 import Pms.Model.Io
 import Pms.Gen.Sph
